@@ -1313,7 +1313,8 @@ DFGRIaddimlut(const char *filename, const void *imlut, int32 xdim, int32 ydim, i
         Ref.lut = (int)wref;
     }
 
-    if ((rigref = Htagnewref(file_id, DFTAG_RIG)) == 0)
+    /* the RIG's ref is also given to its ID, NT, LD and LUT: it must be free for every tag */
+    if ((rigref = Hnewref(file_id)) == 0)
         HGOTO_ERROR(DFE_INTERNAL, FAIL);
     if (DFGRaddrig(file_id, rigref, &Grwrite) == FAIL) /* writes ID, NT */
         HGOTO_ERROR(DFE_INTERNAL, FAIL);
